@@ -8,6 +8,8 @@
                                    aggregateAt0 (+ value.go Series.group / SeriesTags.hash: by/without key,
                                    unused tags removed)                                            → aggregate
                                    funcTopK (single time shift) + engine.go evaluator.weight       → topK / weight
+    internal/promql/engine.go      evalBinary (CardOneToOne: scalar side, label-set matching, on/ignoring),
+                                   slice<Op> / sliceFilter<Cmp> of functions.go                       → binApply / binVal
                                    window.moveOneLeft / setValueAtRight / fillPrefixWith            → moveOneLeft / setRight
                                    overTimeCall, func{Avg,Min,Max,Sum,Count,StdVar,StdDev,Last}OverTime,
                                    funcQuantileOverTime                                            → overTime / otApply
@@ -154,9 +156,12 @@ structure TS where
   startX : Nat
   viewStart : Nat
   viewEnd : Nat
-  lodStep : Int      -- ev.t.LODs[last].Step (single LOD)
+  lodStep : Int      -- ev.t.LODs[last].Step: the finest grid step (reduction threshold, initial cursor step)
   step : Int         -- the requested step (Timescale.Step)
+  widths : List Int := []   -- per time index: the step of the LOD the point belongs to (bucket width); [] = lodStep everywhere
 deriving Repr
+
+def TS.width (ts : TS) (i : Nat) : Int := ts.widths.getD i ts.lodStep
 
 structure Wnd where
   w : Int
@@ -282,7 +287,10 @@ def weights (ts : TS) (g : List Series) : List Rat :=
   if g.all (fun s => nonDecreasing (present (viewVals ts s))) then
     g.map (fun s => ((present (s.vals.take ts.viewEnd)).getLast?).getD 0)
   else
-    g.map (fun s => ratSum ((present (viewVals ts s)).map (fun v => v * v * ts.lodStep)))
+    g.map (fun s => ratSum ((List.range s.vals.length).map (fun i =>
+      if ts.viewStart ≤ i ∧ i < ts.viewEnd then
+        (match s.vals.getD i none with | some v => v * v * ts.width i | none => 0)
+      else 0)))
 
 def insertBy (desc : Bool) (x : Rat × Series) : List (Rat × Series) → List (Rat × Series)
   | [] => [x]
@@ -351,9 +359,9 @@ structure Store where
   events : List Event     -- at most one event per (series, second); each is a row with count 1
 deriving Repr
 
-/-- the handler's query step: `qry.Range`, else `Timescale.Step`, else the LOD step -/
-def queryStep (ts : TS) (range : Int) : Int :=
-  if range ≠ 0 then range else if ts.step ≠ 0 then ts.step else ts.lodStep
+/-- the handler's query step: `qry.Range`, else `Timescale.Step`, else the step of the row's LOD -/
+def queryStep (ts : TS) (range : Int) (rowStep : Int) : Int :=
+  if range ≠ 0 then range else if ts.step ≠ 0 then ts.step else rowStep
 
 def bucketRows (st : Store) (members : List Nat) (lo hi : Int) : List Row :=
   (st.events.filter (fun e => members.contains e.series && decide (lo ≤ e.sec) && decide (e.sec < hi))).map (fun e => Row.ofEvent e.val)
@@ -363,7 +371,9 @@ def queryStorage (st : Store) (ts : TS) (w : What) (groupBy : List Nat) (range :
   let keyed := (List.range st.tags.length).map (fun i => (keyOf false groupBy (st.tags.getD i []), i))
   ((dedupKeys (keyed.map (·.1))).map (fun k =>
     let members := (keyed.filter (fun p => p.1 = k)).map (·.2)
-    let vals := ts.times.map (fun t => (mergeRows (bucketRows st members t (t + ts.lodStep))).map (rowValue w (queryStep ts range) ts.lodStep))
+    let vals := (List.range ts.times.length).map (fun i =>
+      let t := ts.times.getD i 0
+      (mergeRows (bucketRows st members t (t + ts.width i))).map (rowValue w (queryStep ts range (ts.width i)) (ts.width i)))
     ({ tags := k, vals := vals } : Series))).filter (fun s => (present s.vals).length ≠ 0)
 
 /-! ## reduction rules -/
@@ -518,5 +528,93 @@ def exec (cfg : Cfg) (st : Store) (ts : TS) (selWhat : Option What) (nodes : Lis
   let ss := evalChain cfg st ts selWhat nodes
   let ss := if ts.viewStart = ts.viewEnd then ss else ss.filter (hasPresentInView ts)
   ss.map (fun s => { s with vals := s.vals.drop ts.startX })
+
+/-! ## vector-vector binary operators (engine.go evalBinary, one-to-one matching) and expression trees -/
+
+inductive BinOp | add | sub | mul | div | eq | gt | lt | ge | le
+deriving DecidableEq, Repr
+
+inductive Matching
+  | dflt                       -- all labels
+  | on (labels : List Nat)
+  | ignoring (labels : List Nat)
+deriving DecidableEq, Repr
+
+/-- slice<Op> / sliceFilter<Cmp>: arithmetic on two present points; a comparison keeps the `keep` side's point when it
+    holds; a missing point (NaN) on either side gives a missing point -/
+def binVal (op : BinOp) (keepRight : Bool) (a b : Val) : Val :=
+  match a, b with
+  | some x, some y =>
+    let keep := if keepRight then y else x
+    match op with
+    | .add => some (x + y) | .sub => some (x - y) | .mul => some (x * y) | .div => some (x / y)
+    | .eq => if x = y then some keep else none
+    | .gt => if x > y then some keep else none
+    | .lt => if x < y then some keep else none
+    | .ge => if x ≥ y then some keep else none
+    | .le => if x ≤ y then some keep else none
+  | _, _ => none
+
+def zipVals (f : Val → Val → Val) (a b : List Val) : List Val :=
+  (List.range a.length).map (fun i => f (a.getD i none) (b.getD i none))
+
+/-- Series.scalar(): exactly one series and it carries no label -/
+def isScalar (ss : List Series) : Bool :=
+  match ss with
+  | [s] => s.tags.isEmpty
+  | _ => false
+
+/-- the label set a series is matched by (SeriesTags.hash with on / tags) -/
+def matchKey (m : Matching) (tags : Tags) : Tags :=
+  match m with
+  | .dflt => tags
+  | .on ls => keyOf false ls tags
+  | .ignoring ls => keyOf true ls tags
+
+def hasDup : List Tags → Bool
+  | [] => false
+  | k :: ks => ks.contains k || hasDup ks
+
+/-- evalBinary, CardOneToOne.  `none` = "label set match multiple series".  A label-less single series on either side is
+    applied to every series of the other side (the engine's scalar convention); otherwise every left series with a partner
+    of the same matching label set survives, keeping the matching labels only (on / ignoring) or all of its labels. -/
+def binApply (op : BinOp) (m : Matching) (l r : List Series) : Option (List Series) :=
+  if isScalar r then
+    some (l.map (fun s => { s with vals := zipVals (binVal op false) s.vals ((r.head?.map (·.vals)).getD []) }))
+  else if isScalar l then
+    some (r.map (fun s => { s with vals := zipVals (binVal op true) ((l.head?.map (·.vals)).getD []) s.vals }))
+  else if hasDup (l.map (fun s => matchKey m s.tags)) || hasDup (r.map (fun s => matchKey m s.tags)) then none
+  else
+    some (l.filterMap (fun s =>
+      (r.find? (fun s' => matchKey m s'.tags = matchKey m s.tags)).map (fun s' =>
+        { tags := matchKey m s.tags, vals := zipVals (binVal op false) s.vals s'.vals })))
+
+/-- expressions: unary nodes over a selector or over a vector-vector binary operation -/
+inductive Expr
+  | sel (what : Option What)
+  | un (n : Node) (e : Expr)
+  | bin (op : BinOp) (m : Matching) (l r : Expr)
+deriving Repr
+
+def skipsOperand : Node → Bool
+  | .topk _ k _ _ => decide (k ≤ 0)      -- funcTopK returns before evaluating its operand
+  | _ => false
+
+/-- evaluator.eval on a tree; `above` = the unary nodes between this expression and the nearest binary operator (or the
+    root) above it, bottom-up: only those can take part in a reduction of the selector below them -/
+def evalE (cfg : Cfg) (st : Store) (ts : TS) : Expr → List Node → Option (List Series)
+  | .sel w, above => some (evalChain cfg st ts w above)
+  | .un n e, above =>
+    if skipsOperand n then some (above.foldl (fun ss n' => applyNode cfg ts n' ss) [])
+    else evalE cfg st ts e (n :: above)
+  | .bin op m l r, above =>
+    match evalE cfg st ts l [], evalE cfg st ts r [] with
+    | some a, some b => (binApply op m a b).map (fun ss => above.foldl (fun ss n' => applyNode cfg ts n' ss) ss)
+    | _, _ => none
+
+def execE (cfg : Cfg) (st : Store) (ts : TS) (e : Expr) : Option (List Series) :=
+  (evalE cfg st ts e []).map (fun ss =>
+    let ss := if ts.viewStart = ts.viewEnd then ss else ss.filter (hasPresentInView ts)
+    ss.map (fun s => { s with vals := s.vals.drop ts.startX }))
 
 end SH.PromEval
